@@ -626,6 +626,39 @@ class Intrinsics:
         f = z3.Function(f'ghost_{name}', *([z3.IntSort()] * (len(zs) + 1)))
         return f(*zs)
 
+    # FPy dialect vocabulary (pyvc/fpydialect.py)
+    def _fpy(self, P):
+        if not hasattr(P, 'fpy_round'):
+            raise InterpError("fpy_* spec functions need a contract with options = {'dialect': 'fpy'}")
+        return P
+
+    def s_fpy_val(self, P, x):
+        return x
+
+    def s_fpy_rnd(self, P, ctx, v):
+        P = self._fpy(P)
+        return P.fpy_round(P.ctx_of(ctx), v)
+
+    def s_fpy_finite(self, P, ctx, v):
+        return True
+
+    def s_fpy_operand(self, P, m, e):
+        return self._fpy(P).fpy_operand(m, e)
+
+    def s_fpy_pow2(self, P, n):
+        from .fpydialect import fpy_pow
+        if isinstance(n, (int, Fraction)) and not is_z3(n):
+            return Fraction(2) ** int(Fraction(n))
+        return fpy_pow(z3.RealVal(2), as_z3real(n))
+
+    def s_fpy_is_int(self, P, v):
+        if isinstance(v, (int, Fraction)) and not is_z3(v):
+            return Fraction(v).denominator == 1
+        # the same term the dialect builds for `modf(v)[1] == 0` (integral part by truncation)
+        x = as_z3real(v)
+        ip = simp(z3.If(x >= 0, z3.ToReal(z3.ToInt(x)), -z3.ToReal(z3.ToInt(-x))))
+        return simp(simp(x - ip) == z3.RealVal(0))
+
     def s_abstract_int(self, P, name, native_fn, *args):
         return self.s_abstract(P, name, native_fn, *args, _sort=z3.IntSort())
 
